@@ -35,6 +35,8 @@ try:
         res['check_rc'] = rc2; res['check_tail'] = o2[-600:]; res['check_caught'] = ('VIOLATION property=%s' % prop in o2); res['check_wall_s'] = round(time.time() - t, 1)
 finally:
     sh('git -C /repo worktree remove --force %s' % wt); shutil.rmtree(wt, ignore_errors=True)
+    # the check regenerated coq/Gen from the changed tree: put the translation of /repo back
+    sh('python3 -c "import sys; sys.path.insert(0, \'/verif/tools\'); import kernel_gen as k; k.regenerate(); k.regenerate(k.CT_FUNCS); k.regenerate(k.K32_FUNCS)"', cwd='/verif', env=dict(os.environ, VERIF_REPO='/repo'))
 ok = res.get('demo_on_original_rc') == 0 and res.get('tests_pass_with_change') and res.get('demo_on_changed_rc') not in (0, None)
 res['confirmed'] = bool(ok)
 print(json.dumps(res, indent=1))
